@@ -208,6 +208,15 @@ func runRestart(c *fw.Ctx, idx int, r *fw.Rand) {
 		panic(err)
 	}
 	desc := fmt.Sprintf("restart/cap=%d/period=%v", cap, period)
+	// added after seeded change C10-13: every third history runs on a store directory with a
+	// hostile-but-legal name / spelling (paths.go); every process of the history is configured
+	// with that same string
+	backend := ""
+	store, pathLabel, oddPath := pickStorePath(c, "restart", idx, 3, dir, store)
+	if oddPath {
+		backend = "file-restart-oddpath"
+		desc += fmt.Sprintf("/path(%s)=%q", pathLabel, store)
+	}
 	counts := map[string]int64{}
 	feats := map[string]bool{}
 	var state c07.State
@@ -231,7 +240,7 @@ func runRestart(c *fw.Ctx, idx int, r *fw.Rand) {
 			}
 			ops = insertSpecials(r, ops, false, reopens, scans)
 		} // the last process only reads the state back
-		in := &epochIn{Dir: store, Cap: cap, Period: period, Boxes: boxes, Desc: desc, First: ep == 0, State: state, Ops: ops}
+		in := &epochIn{Dir: store, Cap: cap, Period: period, Boxes: boxes, Desc: desc, First: ep == 0, State: state, Ops: ops, Backend: backend}
 		out, ok := runEpoch(c, dir, ep, in)
 		if !ok {
 			return
@@ -260,6 +269,13 @@ func runRestart(c *fw.Ctx, idx int, r *fw.Rand) {
 	for k, v := range counts {
 		c.Count("restart/"+k, v)
 	}
+	if oddPath {
+		c.Count("restart/oddpath_restarts_nonempty", nonempty)
+		c.Count("restart/oddpath_messages_across_restart", counts["messages_across_restart"])
+		if nonempty > 0 {
+			c.NonTrivial(fmt.Sprintf("restart-oddpath|%s", pathLabel))
+		}
+	}
 	if nonempty > 0 {
 		var fs []string
 		for f := range feats {
@@ -270,5 +286,5 @@ func runRestart(c *fw.Ctx, idx int, r *fw.Rand) {
 		sort.Strings(fs)
 		c.NonTrivial(fmt.Sprintf("restart|cap=%d|boxes=%d|epochs=%d|%s", cap, len(boxes), nEpochs, strings.Join(fs, ",")))
 	}
-	c.Sample(map[string]any{"mode": desc, "epochs": nEpochs, "counts": counts, "last_epoch_trace": lastTrace})
+	c.Sample(map[string]any{"mode": desc, "path": pathLabel, "epochs": nEpochs, "counts": counts, "last_epoch_trace": lastTrace})
 }
